@@ -1847,6 +1847,13 @@ impl HttpsProxy {
         }
     }
 
+    /// verification hook: the listener registered under `token` (what
+    /// `HttpProxy::get_listener` offers on the plain-HTTP side)
+    #[cfg(sozu_verif)]
+    pub fn verif_get_listener(&self, token: &Token) -> Option<Rc<RefCell<HttpsListener>>> {
+        self.listeners.get(token).cloned()
+    }
+
     pub fn remove_listener(
         &mut self,
         remove: RemoveListener,
